@@ -380,6 +380,8 @@ def run(chk):
         if ti == 0 and behs:
             chk.sample({"handler": label, "behaviour_head": [{k: s[k] for k in ("op", "node", "kw", "size", "relaxed", "res", "r")} for s in behs[0][:3]]})
     chk.extra["handlers"] = [t[0] for t in targets]
+    from . import c09_kw
+    c09_kw.run(chk, quick, rnd)
     chk.assumptions += ["hard maxima >= 2^31-1 (pbkdf2, sha1_crypt) are treated as 'no maximum' (TLC integers are 32-bit)",
                         "hashing is only executed for costs up to a per-hasher cheap bound; larger costs are compared on attributes only"]
 
